@@ -339,6 +339,29 @@ def draw(source, ty, hint):
         return o
     if tag == 'Tuple':
         return tuple(draw(source, t, '%s.%d' % (hint, i)) for i, t in enumerate(ty.args))
+    if tag == 'Pat':
+        if isinstance(source, ModelSource):
+            base, idx = (hint[:hint.rindex('[')], hint[hint.rindex('['):]) if hint.endswith(']') else (hint, '')
+            if source.bool(base + '.iseof' + idx):
+                return real_class('EOF')
+            if source.bool(base + '.isto' + idx):
+                return real_class('TIMEOUT')
+            return draw(source, ty.args[0], base + '.val' + idx)
+        k = source.choice(hint + '.kind', ['text', 'EOF', 'TIMEOUT'])
+        if k == 'text':
+            return draw(source, ty.args[0], hint + '.val')
+        return real_class(k)
+    if tag == 'Array':
+        from pyvc.spec import ConcArray
+        return ConcArray(0)
+    if tag == 'SymList':
+        comps, scalar = ty.args[0], (ty.args[1] if len(ty.args) > 1 else False)
+        n = source.size(hint + '.len')
+        out = []
+        for i in range(n):
+            vals = [draw(source, t, '%s.%s[%d]' % (hint, cn, i)) for cn, t in comps]
+            out.append(vals[0] if scalar else tuple(vals))
+        return out
     raise Unrepresentable('draw of %r' % (ty,))
 
 
